@@ -1,0 +1,30 @@
+//go:build verif
+
+package plenccodec
+
+import "sync/atomic"
+
+// Verification hooks. Only compiled with the "verif" build tag; without it
+// verifYield is an empty function (see verifhook_off.go).
+
+var verifYieldFn atomic.Pointer[func(point string)]
+
+// SetVerifYield installs a function that is called at the instrumented yield
+// points (codec construction, registry publication, interning, map decode
+// scratch). A verification harness uses it to own the schedule.
+func SetVerifYield(f func(point string)) {
+	if f == nil {
+		verifYieldFn.Store(nil)
+		return
+	}
+	verifYieldFn.Store(&f)
+}
+
+// VerifYield reports that the calling goroutine reached a yield point.
+func VerifYield(point string) {
+	if f := verifYieldFn.Load(); f != nil {
+		(*f)(point)
+	}
+}
+
+func verifYield(point string) { VerifYield(point) }
